@@ -88,7 +88,7 @@ TPoll ==
 TDrop ==
   /\ IsEv("drop_ref") /\ okf /\ live
   /\ DropRef(Rec[l].f)
-  /\ woken' = Rec[l].woken
+  /\ (~streamDropped => woken' = Rec[l].woken)      \* once the stream is gone its wakers are nobody's business
   /\ Step /\ UNCHANGED <<okf, scn, live>>
 
 TDropStream ==
